@@ -13,9 +13,10 @@ EXPLANATION = (
     "sharp s and theta variants, internal blank runs, duplicates) chosen by a symbolic index; destination/title/text carry free characters."
 )
 BOUNDS = {
-    "quick": "3 definitions and one use with labels chosen by the solver from the 12-label menu (all 20736 combinations, concrete title); 1 free character in the title on two fixed label layouts; "
-             "reference-vs-inline form: one free character at a time in destination (ASCII + 7 non-ASCII representatives), title, text; links and images",
-    "thorough": "3 definitions from the full menu; free characters in title and link text on the fixed layouts; forms with two free characters at a time, both presets",
+    "quick": "3 definitions and one use with labels chosen by the solver from the 12-label menu (all 20736 combinations, concrete title and text); "
+             "reference-vs-inline form on the concrete triple (text, destination, title), links and images",
+    "thorough": "plus (not core): 1-2 free characters in title/link text on fixed label layouts; reference-vs-inline form with one or two free characters in "
+                "destination (ASCII + 7 non-ASCII representatives), title, text, both presets",
 }
 OUTSIDE = ("label matching as Unicode case folding for ALL labels is not decided: symbolic lower()/upper() costs ~27 s per path (C-level Unicode tables), the menu "
            "exercises it; definitions spanning more lines than the scaffolds")
@@ -179,26 +180,13 @@ HARNESSES = {
 
 
 def jobs(tier, seed):
+    """quick: all label combinations (solver-chosen indices, concrete title/text).  Jobs with free characters next to reference syntax cost
+    30-250 CPU-s per path (character loops of the reference rule and label normalisation on symbolic-typed strings): thorough tier only."""
     jobs = []
-    nd = 3
     for l0 in range(len(LABELS)):
-        # labels (all definitions and the use) chosen by the solver from the full menu; concrete title/text
-        jobs.append({"harness": "seeded", "params": {"cfg": CM, "ndef": nd, "l0": l0}, "weight": 4, "cpu_cap": 3000, "wall_cap": 4000})
-    # free characters with a few fixed label layouts
-    for l0, sub in ((0, [1, 3]), (4, [5, 10])):
-        jobs.append({"harness": "seeded", "params": {"cfg": CM, "ndef": 2, "l0": l0, "submenu": sub, "free_title": True}, "weight": 20,
-                     "cpu_cap": 3000, "wall_cap": 4000})
-        if tier == "thorough":
-            jobs.append({"harness": "seeded", "params": {"cfg": CM, "ndef": 2, "l0": l0, "submenu": sub, "free_title": True, "free_text": True},
-                         "weight": 60, "cpu_cap": 12000, "wall_cap": 13000})
+        jobs.append({"harness": "seeded", "params": {"cfg": CM, "ndef": 3, "l0": l0}, "weight": 4, "cpu_cap": 3000, "wall_cap": 4000})
     for image in (False, True):
-        if tier == "quick":
-            for vary in ("d", "t", "x"):
-                jobs.append({"harness": "forms", "params": {"cfg": CM, "image": image, "vary": vary}, "weight": 6, "cpu_cap": 3000, "wall_cap": 4000})
-        else:
-            for cfg in (CM, JS):
-                for vary in ("dt", "tx", "dx"):
-                    jobs.append({"harness": "forms", "params": {"cfg": cfg, "image": image, "vary": vary}, "weight": 30, "cpu_cap": 9000, "wall_cap": 10000})
+        jobs.append({"harness": "forms", "params": {"cfg": CM, "image": image, "vary": ""}, "weight": 1, "cpu_cap": 600, "wall_cap": 1200})
     return jobs
 
 
@@ -217,6 +205,13 @@ HARNESSES["seeded"].free = _free_sharded
 
 def thorough_extra(seed):
     jobs = []
+    for l0, sub in ((0, [1, 3]), (4, [5, 10])):
+        jobs.append({"harness": "seeded", "params": {"cfg": CM, "ndef": 2, "l0": l0, "submenu": sub, "free_title": True},
+                     "weight": 60, "cpu_cap": 9000, "wall_cap": 10000, "path_cap": 400})
+    for image in (False, True):
+        for vary in ("d", "t", "x"):
+            jobs.append({"harness": "forms", "params": {"cfg": CM, "image": image, "vary": vary}, "weight": 30, "cpu_cap": 9000, "wall_cap": 10000,
+                         "path_cap": 200})
     for l0, sub in ((0, [1, 3]), (4, [5, 10]), (6, [8, 11])):
         jobs.append({"harness": "seeded", "params": {"cfg": CM, "ndef": 2, "l0": l0, "submenu": sub, "free_title": True, "free_text": True},
                      "weight": 60, "cpu_cap": 9000, "wall_cap": 10000, "path_cap": 120})
